@@ -21,7 +21,8 @@ import Py4hwV.Proofs.C08Gates
                  priorityEncoder_inc_spec priorityEncoder_dec_spec minterm_spec sumOfMinterms_spec swap_spec
     comparators  equal_spec equalConstant_spec equalConstant_wrap notEqualConstant_spec anyEqual_spec comparator_spec
                  comparatorSU_spec max2_spec min2_spec signedMax2_spec signedMin2_spec
-    negative     xor2_wide_counterexample equalConstant_out_of_range_counterexample priorityEncoder_docstring_counterexample
+    repaired     xor2_wide_fixed (former xor2_wide_counterexample, /repo commit 4cfd4ac), norN_wide_fixed (5a57ad0)
+    negative     nor2_wide_counterexample equalConstant_out_of_range_counterexample priorityEncoder_docstring_counterexample
 -/
 namespace C08
 open Lib Leaf
@@ -114,11 +115,16 @@ theorem gen_concatMSBF_spec (rw : Nat) (ins : List (Nat × Nat)) (hl : (ins.map 
 example : Lib.andN 3 [7, 5, 6, 13] = 4 := by rw [andN_spec 3 _ (by decide)]; decide
 example : Lib.orN 3 [1, 4, 8] = 5 := by rw [orN_spec 3 _ (by decide)]; decide
 example : Lib.xorN 3 [(3, 5), (3, 3), (3, 7), (3, 1)] = 0 := by
-  rw [xorN_spec 3 _ (by decide) (by decide) (by decide)]; decide
-example : Lib.norN 3 3 [1, 4] = 2 := by rw [norN_spec 3 3 _ (by decide) (by decide)]; decide
+  rw [xorN_spec 3 _ (by decide) (by decide)]; decide
+example : Lib.xorN 5 [(2, 3), (4, 9), (3, 5)] = 15 := by      -- mixed widths, result wider than every input
+  rw [xorN_spec 5 _ (by decide) (by decide)]; decide
+example : Lib.norN 3 [1, 4] = 2 := by rw [norN_spec 3 _ (by decide)]; decide
+example : Lib.norN 8 [41, 54, 127, 1] = 128 := by rw [norN_spec 8 _ (by decide)]; decide      -- former witness of C08-nor-wide
 example : Lib.nand2 3 3 6 3 = 5 := by rw [nand2_spec 3 3 6 3 (by decide)]; decide
 example : Lib.nor2 3 3 4 1 = 2 := by rw [nor2_spec 3 3 4 1 (by decide)]; decide
 example : Lib.xor2 3 3 3 6 3 = 5 := by rw [xor2_spec 3 3 3 6 3 (by decide) (by decide)]; decide
+example : Lib.xor2 8 10 9 122 1 = 123 := by      -- former witness of C08-xor2-wide: result wider than `a`
+  rw [xor2_val 8 10 9 122 1 (by decide) (by decide)]; decide
 example : Leaf.bit 1 10 3 = 1 := by rw [bit_spec 1 10 3 (by decide)]; decide
 example : Leaf.range 3 0b110100 4 2 = 5 := by rw [range_spec]; decide
 example : Lib.bitsLSBF 4 10 = [0, 1, 0, 1] := by rw [bitsLSBF_spec]; decide
